@@ -41,8 +41,10 @@ def _engine_tasks(what, args):
         from . import schedsim as eng
         n = args.runs or (1200 if args.tier == "quick" else 30000)
         tasks = driver.seeds_for(args.seed, "C12", n)
-        if args.tier == "quick" and not args.runs and not getattr(args, "no_sweep", False) and args.what != "digests":
-            tasks += site_sweep_tasks(eng, args)
+        if not args.runs and not getattr(args, "no_sweep", False) and args.what != "digests":
+            if args.tier == "quick":
+                tasks += site_sweep_tasks(eng, args)
+            tasks += call_race_sweep_tasks(eng, args)
         share = float(os.environ.get("VERIF_INSTR_SHARE", "0.3" if args.tier == "thorough" else "0"))
         if share > 0:
             tasks = [{**t, "cfg": {"instr_share": share}} for t in tasks]
@@ -199,6 +201,35 @@ def _sweep_base(bi):
                   "opts": {"strict_coercion": bi % 2 == 0, "debug_trail": ["ALL", "FIRST", "DISABLE"][bi % 3]}}
     return {"engine": "schedsim", "cluster": "sweep", "handle": handle, "prologue": [mk(o) for o in prologue],
             "threads": [[mk(a)], [mk(b)]], "norm_cache": 128}
+
+
+# call races swept completely: (type, datum of the primary thread, datum of the other thread, debug_trail)
+C12_CALL_RACE_SWEEP = [
+    ("TupIntStr", "tup_is", "tup_Ts", "DISABLE"), ("TupLit01", "tup_01", "tup_FT", "DISABLE"), ("TupListDict", "tup_ld", "tup_ld", "ALL"),
+    ("ListInt", "l1", "lTF", "DISABLE"), ("DictStrListInt", "dAl", "dA1", "FIRST"), ("UListIntStr", "l1", "s1", "DISABLE"),
+    ("M1", "m_ab", "m_aTb", "ALL"), ("Node", "node4", "node1", "DISABLE"), ("SetInt", "l1", "lTF", "ALL"),
+]
+
+
+def call_race_sweep_tasks(eng, args):
+    """The loader exists already; two threads call it with different data. The primary thread is preempted once
+    at *every* step of its call (calls are short), the other thread runs to completion in between."""
+    from .procpool import fork_call
+    tasks = []
+    for ci, (t, d0, d1, trail) in enumerate(C12_CALL_RACE_SWEEP):
+        handle = {"base": "Retort", "recipe": "plain", "opts": {"strict_coercion": ci % 2 == 0, "debug_trail": trail}}
+        base = {"engine": "schedsim", "cluster": "callrace", "handle": handle,
+                "prologue": [{"op": "load", "h": 0, "t": t, "d": d0}],
+                "threads": [[{"op": "load", "h": 0, "t": t, "d": d0}], [{"op": "load", "h": 0, "t": t, "d": d1}]],
+                "norm_cache": 128}
+        try:
+            solo = fork_call(eng.compute_ref, (eng._solo_desc({**base, "policy": {"kind": "solo"}}, 0),), 120.0, "solo")
+        except Exception:  # noqa: BLE001
+            continue
+        for k in range(1, min(solo["steps"], 400) + 1):
+            tasks.append({"scenario": {**base, "seed": f"callrace:{ci}:{k}",
+                                       "policy": {"kind": "sweep1", "t": 0, "k": k}, "sweep": True}})
+    return tasks
 
 
 def site_sweep_tasks(eng, args):
